@@ -20,7 +20,8 @@ RULE = ("roll-up streams: RU2 / RU3 / RU4 sent once or repeated on every line, C
         "group ends exactly when the next begins. Non-trivial: >= 3 rows. "
         'The SCCReader object is fresh or has a past (see C05). '
         "Lines are written in lexical variants too: 1-3 blanks between code words, blanks for "
-        "the tab after the timecode, blanks / a tab after the last word. ")
+        "the tab after the timecode, blanks / a tab after the last word; a line may be spread over "
+        "frame-contiguous lines at any word. Rows also carry extended characters (stand-in + code). ")
 ASSUMPTIONS = [
     "captions that share a start time (rows of one paint-on burst on non-adjacent screen rows) "
     "are one display state: adjacency of end/start is judged between groups of equal start",
@@ -37,7 +38,11 @@ def row_strategy():
         n = 0
         for _ in range(draw(st.integers(1, 5))):
             kind = draw(st.integers(0, 5))
-            if kind == 0:
+            if kind == 0 and draw(st.booleans()):
+                # an extended character: its basic stand-in, then the two-byte code that replaces it
+                p = ["ex", draw(st.sampled_from(EXT_WORDS)), draw(st.sampled_from("AEOUaeiou"))]
+                ln = 1
+            elif kind == 0:
                 p = ["sp", draw(st.sampled_from([0, 1, 2, 3, 4, 5, 6, 7, 8, 10, 11, 12, 13, 14, 15]))]
                 ln = 1
             else:
@@ -77,7 +82,7 @@ def stream_strategy(tier):
                     "ru_each": draw(st.booleans()), "rows": rows, "drop": draw(st.booleans()),
                     "double": draw(st.booleans()), "t0": draw(st.sampled_from([0, 0, 1, 30, 108000])),
                     "close": draw(st.booleans()), "reuse": draw(SP.reuse_strategy()),
-                    "spacing": draw(SP.spacing_strategy())}
+                    "spacing": draw(SP.spacing_strategy()), "cuts": draw(SP.cuts_strategy())}
         bursts = []
         for b in range(draw(st.integers(1, 4))):
             n = draw(st.integers(1, 3))
@@ -91,8 +96,12 @@ def stream_strategy(tier):
         return {"mode": "paint", "bursts": bursts, "drop": draw(st.booleans()),
                 "double": draw(st.booleans()), "t0": draw(st.sampled_from([0, 0, 1, 108000])),
                 "close": draw(st.booleans()), "reuse": draw(SP.reuse_strategy()),
-                    "spacing": draw(SP.spacing_strategy())}
+                    "spacing": draw(SP.spacing_strategy()), "cuts": draw(SP.cuts_strategy())}
     return build()
+
+
+# accented letters of the two extended tables (glyphs without alternative renderings)
+EXT_WORDS = sorted(w for w, g in R.EXTENDED.items() if g.isalpha())
 
 
 def _row_words(parts, d):
@@ -107,6 +116,12 @@ def _row_words(parts, d):
         if p[0] == "w":
             pending += p[1]
             text += p[1]
+        elif p[0] == "ex":
+            pending += p[2]
+            words += R.char_words(pending)
+            pending = ""
+            words += [p[1]] * d
+            text += R.EXTENDED[p[1]]
         else:
             if pending:
                 words += R.char_words(pending)
@@ -120,7 +135,7 @@ def _row_words(parts, d):
 
 def build(case):
     d = 2 if case["double"] else 1
-    lines = ["Scenarist_SCC V1.0", ""]
+    tl = []          # (frame, words)
     t = case["t0"]
     rows_text = []
 
@@ -136,10 +151,10 @@ def build(case):
             ww, text = _row_words(r["parts"], d)
             w += ww
             rows_text.append(text)
-            lines += [SP.fmt_line(R.timecode(t, case["drop"]), w, case.get("spacing")), ""]
+            tl.append((t, w))
             t += len(w) + r["gap"]
         if case["close"]:
-            lines += [SP.fmt_line(R.timecode(t, case["drop"]), ctrl("CR"), case.get("spacing")), ""]
+            tl.append((t, ctrl("CR")))
     else:
         for b in case["bursts"]:
             w = ctrl("RDC")
@@ -148,10 +163,15 @@ def build(case):
                 ww, text = _row_words(r["parts"], d)
                 w += ww
                 rows_text.append(text)
-            lines += [SP.fmt_line(R.timecode(t, case["drop"]), w, case.get("spacing")), ""]
+            tl.append((t, w))
             t += len(w) + b["gap"]
         if case["close"]:
-            lines += [SP.fmt_line(R.timecode(t, case["drop"]), ctrl("RDC"), case.get("spacing")), ""]
+            tl.append((t, ctrl("RDC")))
+    # the same word stream may be laid out over more, frame-contiguous lines
+    tl = SP.apply_cuts(tl, case.get("cuts"))
+    lines = ["Scenarist_SCC V1.0", ""]
+    for f, w in tl:
+        lines += [SP.fmt_line(R.timecode(f, case["drop"]), w, case.get("spacing")), ""]
     return "\n".join(lines), rows_text
 
 
